@@ -57,8 +57,35 @@ func DecodeUnknownObject(data []byte, expectNextTypes ...reflect.Type) (Object, 
 	return obj, nil
 }
 
+// DecodeNestedUnknownObject decodes object from data, which was extracted from stream of this decoder (packed
+// object, for example): predictions and nesting depth of this decoder are inherited.
+func (d *Decoder) DecodeNestedUnknownObject(data []byte) (Object, error) {
+	nested, err := NewDecoder(bytes.NewReader(data))
+	if err != nil {
+		return nil, err
+	}
+	nested.expectedTypes = d.expectedTypes
+	nested.depth = d.depth + 1
+	if nested.depth > maxNestingDepth {
+		return nil, fmt.Errorf("objects are nested deeper than %v levels", maxNestingDepth)
+	}
+
+	obj := nested.decodeRegisteredObject()
+	if nested.err != nil {
+		return nil, errors.Wrap(nested.err, "decoding predicted object")
+	}
+	return obj, nil
+}
+
 func (d *Decoder) decodeObject(o Object, ignoreCRC bool) {
 	if d.err != nil {
+		return
+	}
+
+	d.depth++
+	defer func() { d.depth-- }()
+	if d.depth > maxNestingDepth {
+		d.err = fmt.Errorf("objects are nested deeper than %v levels", maxNestingDepth)
 		return
 	}
 
